@@ -34,6 +34,19 @@ def _cfg(name, text):
     return p
 
 
+def _build(binname):
+    """cargo build; the workspace is shared with other families, whose half-written crates can
+    break a build transiently -- retry before giving up."""
+    import time
+    for attempt in range(3):
+        try:
+            return vlib.cargo_build("hv_std", bins=[binname], features=["runner"], workspace="harness_hydro")
+        except vlib.ToolError:
+            if attempt == 2:
+                raise
+            time.sleep(20)
+
+
 def _run_harness(exe, args):
     p = vlib.run_bin(exe, args, cwd=CRATE, env={"CARGO_MANIFEST_DIR": CRATE}, timeout=3000)
     if p.returncode != 0:
@@ -84,16 +97,43 @@ def _report(res, trace, viol, what):
     return cases
 
 
-def _canary(res, trace, mutate, label):
-    evs = vlib.read_ndjson(trace)
-    if not mutate(evs):
-        raise vlib.ToolError("canary %s: no place to corrupt" % label)
-    ctrace = trace.replace(".ndjson", "_canary_%s.ndjson" % re.sub(r"\W", "_", label))
-    vlib.write_ndjson(ctrace, evs)
+def _head(evs, ncases):
+    """the first ncases whole cases of a trace, plus eof"""
+    out, n = [], 0
+    for e in evs:
+        if e.get("e") == "reset":
+            n += 1
+            if n > ncases:
+                break
+        if e.get("e") != "eof":
+            out.append(json.loads(json.dumps(e)))       # deep copy
+    return out + [{"e": "eof"}]
+
+
+def _canaries(res, muts):
+    """Each (trace, mutate, label) corrupts its own copy of a short prefix of a good recorded
+    trace; the copies are concatenated (case ids offset by 100000 * i) and validated in ONE TLC
+    run; every copy must be flagged, else the binding is vacuous (ToolError)."""
+    allevs, ctrace = [], None
+    for i, (trace, mutate, label) in enumerate(muts):
+        full = vlib.read_ndjson(trace)
+        ctrace = ctrace or trace.replace(".ndjson", "_canaries.ndjson")
+        evs = _head(full, 80)
+        if not mutate(evs):
+            evs = json.loads(json.dumps(full))
+            if not mutate(evs):
+                raise vlib.ToolError("canary %s: no place to corrupt in %s" % (label, trace))
+        for e in evs:
+            if e.get("e") == "reset":
+                e["case"] += 100000 * (i + 1)
+        allevs += [e for e in evs if e.get("e") != "eof"]
+    vlib.write_ndjson(ctrace, allevs + [{"e": "eof"}])
     cviol = _validate(ctrace, None, "canary")
-    if not cviol:
-        raise vlib.ToolError("canary (%s) was NOT rejected by SliceTrace" % label)
-    res.extra.setdefault("canaries", []).append("%s -> %s" % (label, sorted({v[1] for v in cviol})[:3]))
+    for i, (_, _, label) in enumerate(muts):
+        hit = sorted({v[1] for v in cviol if v[0] // 100000 == i + 1})
+        if not hit:
+            raise vlib.ToolError("canary (%s) was NOT rejected by SliceTrace" % label)
+        res.extra.setdefault("canaries", []).append("%s -> %s" % (label, hit[:3]))
 
 
 def _batch_events(evs):
@@ -157,7 +197,7 @@ def _state_reset(evs):
 def run(tier):
     res = vlib.PropResult("C31")
     thorough = tier == "thorough"
-    bindir = vlib.cargo_build("hv_std", bins=["hv_slice"], features=["runner"], workspace="harness_hydro")
+    bindir = _build("hv_slice")
     exe = os.path.join(bindir, "hv_slice")
     d = vlib.rundir("slice")
 
@@ -233,12 +273,14 @@ def run(tier):
     res.distinct_nontrivial = len(seen)
 
     # (4) canaries
-    _canary(res, trace, _dup_element, "element in two batches")
-    _canary(res, trace, _lose_element, "element in no batch")
-    _canary(res, rtrace, _swap_batch, "batch out of order")
-    _canary(res, trace, _snapshot_back, "snapshot older than the previous one")
-    _canary(res, trace, _hook_skips_slice, "one hook misses a slice execution")
-    _canary(res, trace, _state_reset, "slice state not carried over")
+    _canaries(res, [
+        (trace, _dup_element, "element in two batches"),
+        (trace, _lose_element, "element in no batch"),
+        (rtrace, _swap_batch, "batch out of order"),
+        (trace, _snapshot_back, "snapshot older than the previous one"),
+        (trace, _hook_skips_slice, "one hook misses a slice execution"),
+        (trace, _state_reset, "slice state not carried over"),
+    ])
 
     res.rule = ("case = (program, staged input script) x one explored simulator schedule; non-trivial = at least "
                 "two slice executions, one of which took >= 2 elements; distinct by the recorded observations")
